@@ -897,3 +897,12 @@ M('tw-cli-writeback-flag-in-a-local', ['C20', 'C13'], CLI, "    if args.writebac
   'the write-back switch kept in a local', expect='silent', more=[(CLI, "        if args.writeback_input:\n            input_store.write(args.input_file)\n", "        if writeback:\n            input_store.write(args.input_file)\n")])
 M('tw-escape-with-a-loop-over-pairs', ['C19'], PF, "    return str(text).replace('\\\\', '\\\\\\\\').replace('(', '\\\\(').replace(')', '\\\\)')\n",
   "    out = str(text).replace('\\\\', '\\\\\\\\')\n    out = out.replace('(', '\\\\(')\n    out = out.replace(')', '\\\\)')\n    return out\n", None, 'the three replacements of the escaping function written one per statement', expect='silent')
+M('tw-threshold-key-in-a-local', ['C08', 'C10', 'C02', 'C17', 'C15'], Y23 + 'f1040.py', "        def standard_deduction(self, i):\n            return self.threshold('standard_deduction', i['filing_status'])\n",
+  "        def standard_deduction(self, i):\n            status = i['filing_status']\n            amount = self.threshold('standard_deduction', status)\n            return amount\n", None,
+  'the filing status and the looked-up amount kept in locals', expect='silent')
+M('tw-line-12-else-branches-reordered', ['C08', 'C10', 'C02', 'C09', 'C15'], Y23 + 'f1040.py', "            if v['itemizing']:\n                return v['1040_sa.17']\n            elif i['standard_deduction_exceptions']:\n                self.not_implemented()\n            else:\n                return standard_deduction(self, i)\n",
+  "            if v['itemizing']:\n                return v['1040_sa.17']\n            if not i['standard_deduction_exceptions']:\n                return standard_deduction(self, i)\n            self.not_implemented()\n", None,
+  'line 12 written with early returns: the refusal comes last', expect='silent')
+M('tw-schedule-1-test-with-locals', ['C10', 'C02', 'C09', 'C03'], Y23 + 'f1040.py', "            return (mort_int_refund + state_income_refund) > 0.001 or i['schedule_1_additional_income']\n",
+  "            refunds = mort_int_refund + state_income_refund\n            if refunds > 0.001:\n                return True\n            return i['schedule_1_additional_income']\n", None,
+  'the disjunction written as an early return', expect='silent')
